@@ -2,6 +2,8 @@
 from .. import matrix
 from ..rules import sets
 
+from ..rules import round5
+
 
 def run(tier, runner):
     pts = matrix.smallset_points(tier)
@@ -31,9 +33,11 @@ def run(tier, runner):
     r_cmp.require(2, 'SmallSet functions using a comparator')
     r_node.require(2, 'insert(node) overloads')
     r_sib.require(8, 'state-dependent const members')
+    r_eq = round5.eq_elem(progs)
+    r_eq.findings = [f for f in r_eq.findings if 'SmallSet' in f.key]
     return {
-        'results': [r_state, r_dup, r_cmp, r_node, r_sib, r_mo, r_lex, r_gr, r_is, r_ci, r_nm, r_pair],
-        'explanation': 'C04 as stated (membership / size / comparison results over histories) is not decided.  Decided: SS-STATE - exactly one of the two '
+        'results': [r_state, r_dup, r_cmp, r_node, r_sib, r_mo, r_lex, r_gr, r_is, r_ci, r_nm, r_pair, r_eq],
+        'explanation': 'EQ-ELEM: operator== never consults the ordering comparator.  C04 as stated (membership / size / comparison results over histories) is not decided.  Decided: SS-STATE - exactly one of the two '
                        'containers is written in each state (typestate on isSmall()/isSmallContFull()/grow() facts per operand; grow() moves all of the '
                        'vector into the set and clears it; private helpers are entered with their state established by every caller); SS-DUP - no path '
                        'adds to the inline vector without a membership test over it; CMP-OBJ - the stored comparator is used (also for the sorted '
